@@ -47,7 +47,7 @@ class LoopCutEnd(PathAbort):
 
 
 class Obligation:
-    __slots__ = ('label', 'pc', 'claim', 'meta', 'status', 'model', 'solver', 'secs', 'path', 'detail')
+    __slots__ = ('label', 'pc', 'claim', 'meta', 'status', 'model', 'solver', 'secs', 'path', 'detail', 'ghost')
 
     def __init__(self, label, pc, claim, meta, path):
         self.label, self.pc, self.claim, self.meta, self.path = label, pc, claim, meta, path
@@ -56,6 +56,7 @@ class Obligation:
         self.solver = None
         self.secs = 0.0
         self.detail = ''
+        self.ghost = None       # refuted: names of non-input (havoc-ed / ghost) constants the formula mentions
 
 
 class State:
@@ -506,6 +507,7 @@ def discharge(o, z3_ms=10000, cvc5_ms=20000, both=False):
                 break
             s.pop()
         o.model = extract_model(m, inputs)
+        o.ghost = sorted(_free_consts(o.pc + [o.claim]) - _input_consts(inputs))[:12]
     else:
         o.status = 'unknown'
     if o.status == 'unknown' or both:
@@ -525,6 +527,42 @@ def discharge(o, z3_ms=10000, cvc5_ms=20000, both=False):
                 o.solver = 'z3+cvc5'
     o.secs = time.time() - t
     return o
+
+
+def _consts_of(t, out, seen):
+    stack = [t]
+    while stack:
+        x = stack.pop()
+        if x.get_id() in seen:
+            continue
+        seen.add(x.get_id())
+        if z3.is_quantifier(x):
+            stack.append(x.body())
+            continue
+        if z3.is_app(x):
+            d = x.decl()
+            if x.num_args() == 0 and d.kind() == z3.Z3_OP_UNINTERPRETED:
+                out.add(d.name())
+            stack.extend(x.children())
+
+
+def _free_consts(terms):
+    """names of the uninterpreted constants (ints, bools, arrays) a formula mentions"""
+    out, seen = set(), set()
+    for t in terms:
+        _consts_of(t, out, seen)
+    return out
+
+
+def _input_consts(inputs):
+    """names of the constants that stand for the unit's inputs (everything else a formula mentions is havoc-ed / ghost state)"""
+    out, seen = set(), set()
+    for name, kind, p in inputs:
+        ps = p if isinstance(p, tuple) else (p,)
+        for q in ps:
+            if isinstance(q, z3.ExprRef):
+                _consts_of(q, out, seen)
+    return out
 
 
 def extract_model(m, inputs):
